@@ -332,9 +332,9 @@ def ev_k(case, rec):
 
 
 SUBCHECKS = [
-    Sub('frame', gen_frame, ev_frame, chunk=2, floor=200, guard=True),
-    Sub('vcv', gen_vcv, ev_vcv, chunk=1, floor=200, guard=True),
-    Sub('ellipse', gen_ell, ev_ell, chunk=1, floor=30, guard=True),
+    Sub('frame', gen_frame, ev_frame, chunk=2, floor=200, guard=True, envs=3),
+    Sub('vcv', gen_vcv, ev_vcv, chunk=1, floor=200, guard=True, envs=3),
+    Sub('ellipse', gen_ell, ev_ell, chunk=1, floor=30, guard=True, envs=2),
     Sub('ktable', gen_k, ev_k, chunk=1, floor=200, parallel=False, guard=True),
 ]
 
